@@ -1,0 +1,43 @@
+//! Verification hooks (compiled only with `--cfg inputlayer_verif`).
+//!
+//! `yield_point(label)` marks a boundary of the verification model's step relation
+//! (lock acquisition/release, time assignment, publish); `fs_point(label)` brackets a
+//! file-system mutation. Both are no-ops unless a harness has installed a callback.
+//! Nothing here is compiled into normal builds.
+
+use std::sync::{Arc, RwLock};
+
+type Callback = Arc<dyn Fn(&str) + Send + Sync>;
+
+static YIELD_CB: RwLock<Option<Callback>> = RwLock::new(None);
+static FS_CB: RwLock<Option<Callback>> = RwLock::new(None);
+
+/// Install (or clear, with `None`) the callback invoked at every `yield_point`.
+pub fn set_yield_callback(cb: Option<Callback>) {
+    if let Ok(mut g) = YIELD_CB.write() {
+        *g = cb;
+    }
+}
+
+/// Install (or clear, with `None`) the callback invoked at every `fs_point`.
+pub fn set_fs_callback(cb: Option<Callback>) {
+    if let Ok(mut g) = FS_CB.write() {
+        *g = cb;
+    }
+}
+
+/// A scheduling point of the verification model.
+pub fn yield_point(label: &str) {
+    let cb = YIELD_CB.read().ok().and_then(|g| g.clone());
+    if let Some(cb) = cb {
+        cb(label);
+    }
+}
+
+/// A file-system mutation boundary of the verification model.
+pub fn fs_point(label: &str) {
+    let cb = FS_CB.read().ok().and_then(|g| g.clone());
+    if let Some(cb) = cb {
+        cb(label);
+    }
+}
